@@ -130,8 +130,9 @@ class World:
 
     def source(self, kind: str) -> Container:
         """Side container holding the whole universe in mixed forms; 'same' or 'other' hash type."""
+        ht = self.config['hash_type'] if kind == 'same' else other_hash(self.config['hash_type'])
+        kind = ht          # side containers are keyed by their hash type (the container under test can be re-initialised)
         if kind not in self.sources:
-            ht = self.config['hash_type'] if kind == 'same' else other_hash(self.config['hash_type'])
             s = Container(os.path.join(self.dir, f'src-{kind}'))
             s.init_container(hash_type=ht, pack_size_target=40, loose_prefix_len=2,
                              compression_algorithm='zlib+1')
@@ -302,12 +303,18 @@ class World:
                 except FileExistsError:
                     pass
             elif kind == 'reinit_clear':
-                # init_container(clear=True): the documented way to start over with an empty container, through a live handle
+                # init_container(clear=True): the documented way to start over with an empty container, through a live handle;
+                # ('reinit_clear', 'other-config') starts over with the other hash type and a flat/sharded loose folder swapped
+                if len(op) > 1 and op[1] == 'other-config':
+                    self.config['hash_type'] = other_hash(self.config['hash_type'])
+                    self.config['loose_prefix_len'] = 0 if self.config['loose_prefix_len'] else 2
                 self.h.init_container(clear=True, **self.config)
-                m.loose.clear()
-                m.packed.clear()
+                self.model = Model(self.config['hash_type'], self.model.universe)
+                m = self.model
                 self.damaged.clear()
                 self.dups.clear()
+                self.deleted_ok.clear()
+                self.uncertain.clear()
             elif kind == 'switch':
                 self.cur = op[1]
             elif kind == 'damage':
@@ -486,6 +493,7 @@ def core_alphabet():
         ('delete', (2, 3)),
         ('loosen', 1),
         ('import', (0, 1, 2, 3), False, 104857600, 'same'),
+        ('import', (2, 3), False, 104857600, 'other'),
         ('reopen',),
     ]
     return ops
@@ -530,6 +538,7 @@ def variant_alphabet():
     ops.append(('import', (0, 2), False, 13, 'same'))
     ops.append(('reinit',))
     ops.append(('reinit_clear',))
+    ops.append(('reinit_clear', 'other-config'))
     cb = ('kw', ('callback', 'REC'))
     ops.append(('pack', 'AUTO', True, True, cb))
     ops.append(('topack', (1, 1, 3), True, True, True, cb))
